@@ -197,7 +197,42 @@ func genCaseC08(t *rapid.T) Case {
 	if rapid.IntRange(0, 3).Draw(t, "unbind") != 0 {
 		sc.AddUnbindScenario(t, c.Blocks, c.Gen, f)
 	}
+	if rapid.IntRange(0, 2).Draw(t, "slash-delegated") != 0 {
+		addSlashDelegated(t, &c, f)
+	}
 	return c
+}
+
+// addSlashDelegated: a directed scenario for penalties on validators WITH bound delegations and
+// non-round token amounts: a genesis validator (any role, token with a fractional YOU part) opens for
+// delegation in period 0, receives one or two delegations of "minimum + N.5 YOU" in period 1, and a
+// real equivocation of it is reported in period 2 (or it is simply never chosen as proposer again, for
+// chamber validators: inactivity). takePenalty then splits the penalty per stake unit over the self
+// stake and the delegations, which leaves every share with a fractional YOU part.
+func addSlashDelegated(t *rapid.T, c *Case, f int) {
+	if len(c.Blocks) < 2*f+2 {
+		return
+	}
+	gi := rapid.IntRange(0, len(c.Gen)-1).Draw(t, "sd-val")
+	if gi == 0 {
+		gi = len(c.Gen) - 1 // keep the first chancellor as a proposer
+	}
+	g := &c.Gen[gi]
+	g.Offline = false
+	if g.Sub == 0 {
+		g.Sub = uint64(rapid.IntRange(1, 999).Draw(t, "sd-sub"))
+	}
+	v := -1 - g.ID
+	c.Blocks[0].Ops = append(c.Blocks[0].Ops, sc.Op{K: "vupdate", V: v, X: 1 | 4, Y: 36 + 6*rapid.IntRange(0, 5).Draw(t, "sd-risk"), P: 4})
+	nd := rapid.IntRange(1, 2).Draw(t, "sd-ndeleg")
+	for i := 0; i < nd; i++ {
+		at := f - 1 + rapid.IntRange(0, f-2).Draw(t, "sd-dadd-at")
+		c.Blocks[at].Ops = append(c.Blocks[at].Ops, sc.Op{K: "dadd", A: (gi + i) % sc.NDeleg, V: v, M: 5, P: 4 + i})
+	}
+	at := 2*f - 1 + rapid.IntRange(0, len(c.Blocks)-2*f).Draw(t, "sd-evidence-at")
+	kind := rapid.SampledFrom([]uint8{sc.KPrevote, sc.KPrecommit}).Draw(t, "sd-kind")
+	c.Blocks[at].Ev = append(c.Blocks[at].Ev, sc.EvSpec{Signer: 100 + g.ID, Index: 1, VoteType: kind,
+		Pairs: []sc.PairSpec{{Kind: kind, Hash: 0}, {Kind: kind, Hash: 1}}})
 }
 
 // negRecError recognises the two error texts by which the recorded finding negative-pending-record
@@ -219,7 +254,7 @@ func runC08(c Case) kit.Result {
 	}
 	defer net.Close()
 	w := sc.NewWorld(net)
-	var statusChanges, stakeBoundary, delegationChanges, blocks, penalties, forcedByUnbind int
+	var statusChanges, stakeBoundary, delegationChanges, blocks, penalties, forcedByUnbind, penaltyFractional int
 	balanceDrift = false
 	pre, err := sc.Observe(net.A, net.A.Head().Header())
 	if err != nil {
@@ -275,6 +310,17 @@ func runC08(c Case) kit.Result {
 			}
 			if p.Token.Cmp(v.Token) < 0 && p.Expelled && !v.Expelled {
 				penalties++
+				// a penalty on a validator with bound delegations that leaves fractional YOU parts summing
+				// to at least one stake unit: floor(sum of tokens) > sum of floors
+				if len(v.Delegations) > 0 && len(p.Delegations) > 0 {
+					sumFloors := new(big.Int).Set(params.YOUToStake(p.SelfToken))
+					for _, d := range p.Delegations {
+						sumFloors.Add(sumFloors, params.YOUToStake(d.Token))
+					}
+					if params.YOUToStake(p.Token).Cmp(sumFloors) > 0 {
+						penaltyFractional++
+					}
+				}
 			}
 		}
 		pre = post
@@ -288,6 +334,9 @@ func runC08(c Case) kit.Result {
 	}
 	if statusChanges > 0 {
 		labels = append(labels, "status-change")
+	}
+	if penaltyFractional > 0 {
+		labels = append(labels, "penalty-on-delegated-validator-fractional")
 	}
 	if forcedByUnbind > 0 {
 		labels = append(labels, "forced-offline-by-unbind")
